@@ -213,6 +213,10 @@ def family_twins():
                 progs.append({"items": [sub([sub([dict(i) for i in a]), sub([dict(i) for i in b]), dict(tail)], 2)]})
                 progs.append({"items": [op("Reset", 5), sub([sub([dict(i) for i in a]), sub([dict(i) for i in b]), dict(tail)], 1, rel=[0, "S"])]})
                 progs.append({"items": [sub([dict(i) for i in a], 2), sub([dict(i) for i in b], 2), tail, op("Ry90", 1, rel=[1, t])]})
+    # (b') measurements counted by the top-level circuit, next to a relation-less first-level sub-circuit (value-equal to the circuit once it was read)
+    for inner in ([op("DispersiveMeasure", 0, acq="top")], [op("Rx180", 1), op("DispersiveMeasure", 1, tag="a", acq="top")]):
+        progs.append({"items": [sub([dict(i) for i in inner]), op("DispersiveMeasure", 0)]})
+        progs.append({"items": [op("DispersiveMeasure", 2), sub([dict(i) for i in inner]), op("DispersiveMeasure", 0, tag="final")]})
     # (d) repeated blocks whose last operations sit at different depths (multi links with references listed later), copied after unrolling
     for body in ([op("DispersiveMeasure", 0), op("Wait", 2, d=1.0, ch="MW"), op("Wait", 0, d=2.0, rel=[1, "E"])],
                  [op("Wait", 0, d=1.0), op("Rx180", 1), op("Wait", 1, d=5.0, src="reg"), op("Ry90", 2)],
@@ -355,7 +359,7 @@ def make_cases(tier, seed):
         nleaves = json.dumps(s).count('"x"')
         alpha = alphabet("small")[:4] if nleaves == 3 else alphabet("mid")
         e3.extend(fill_shape(s, alpha, (1, 2, 3) if thorough and nleaves < 3 else (1, 2)))
-    cap = 100000 if thorough else 6000
+    cap = 80000 if thorough else 6000
     if len(e3) > cap:
         n_all = len(e3)
         step = n_all / float(cap)
@@ -378,7 +382,7 @@ def make_cases(tier, seed):
     add(f"F6 library repetition-code circuits: {len(lb)}", [c for p in lb for c in variants(p, seed, which="all" if thorough else 3, reps=(2,))
                                                             if not (c["mode"] == "repeat")])
     # F3 random
-    nrand = 100000 if thorough else 5000
+    nrand = 80000 if thorough else 5000
     add(f"F3 random programs (2..6 items per level, all kinds): {nrand}", [random_case(rng, seed) for _ in range(nrand)])
 
     # round robin over the families so that a run cut short still covers all of them
